@@ -49,6 +49,8 @@ class Profile:
     fully_discrete: float = 0.0
     free_constraints: float = 0.15
     free_p_true: float = 0.7
+    max_R: int = 2
+    max_RC: int = 2
     extra: dict = field(default_factory=dict)
 
 
@@ -89,6 +91,10 @@ class D:
         return self.draw(st.integers(int(round(lo * s)), int(round(hi * s)))) / s
 
     def ints(self, n, lo, hi):
+        if n > 1024:
+            # very large tables: draw 1021 (prime) values and tile them
+            base = self.draw(st.lists(st.integers(lo, hi), min_size=1021, max_size=1021))
+            return [base[i % 1021] for i in range(n)]
         return self.draw(st.lists(st.integers(lo, hi), min_size=n, max_size=n))
 
     def table_float(self, shape, lo=-2.0, hi=2.0, digits=2):
@@ -272,12 +278,12 @@ def model_specs(draw, prof: Profile = Profile()):
     joint_targets = None  # (t, cell...) -> combos, for the 'drop' construction
     if want_filter and dstates:
         filter_mode = d.choice(prof.filter_modes)
-        R = d.subset(dstates, 1, 2)
+        R = d.subset(dstates, 1, prof.max_R)
         R = [s for s in dstates if s in R]
         if force_sd:
             RC = d.subset(dchoices, 1, max(1, len(dchoices) - 1))
         else:
-            RC = d.subset(dchoices, 0, 2)
+            RC = d.subset(dchoices, 0, prof.max_RC)
         RC = [c for c in dchoices if c in RC]
         per = T > 1 and d.bool(prof.p_period_filter)
         if filter_mode == "drop":
